@@ -203,7 +203,7 @@ def run(ctx):
                 r.fail(m, m.node, "def %s" % GATE, "%s replaces the gate without consulting Output.%s" % (c.name, GATE))
     read = set()
     for n in walk_no_nested(gate_fn.node):
-        if is_self_attr(n) and isinstance(n.ctx, ast.Load) and n.attr != GATE:
+        if is_self_attr(n) and isinstance(n.ctx, ast.Load) and n.attr != GATE and p.lookup_method(out_cls, n.attr) is None:
             read.add(n.attr)
     for fld in sorted(read):
         setters = []
@@ -247,21 +247,83 @@ def _gate_table(ctx, r, gate):
     prm = q.param_names(gate)
     ctx.require(prm, "gate has no flags parameter")
     fl = prm[0]
-    rows = []  # (path conditions [(text, polarity, expr)], return expr)
-    for ret in q.returns(gate):
-        rn = cfg.node_of(ret)
-        try:
-            paths = cfg.paths(cfg.entry.id, rn.id, limit=400)
-        except OverflowError:
-            raise AnalysisError("gate has too many paths to tabulate")
-        for path in paths:
-            conds = []
-            for nid in path:
-                n = cfg.nodes[nid]
-                if n.kind in ("T", "F"):
-                    conds.append((norm(n.ast), n.kind == "T", n.ast))
-            rows.append((conds, ret.value, ret))
-    ctx.require(rows, "gate has no return paths")
+    def raw_rows(fn):
+        c = ctx.cfg(fn)
+        out = []
+        for ret in q.returns(fn):
+            rn = c.node_of(ret)
+            try:
+                paths = c.paths(c.entry.id, rn.id, limit=400)
+            except OverflowError:
+                raise AnalysisError("gate has too many paths to tabulate")
+            for path in paths:
+                conds = []
+                for nid in path:
+                    n = c.nodes[nid]
+                    if n.kind in ("T", "F"):
+                        conds.append((norm(n.ast), n.kind == "T", n.ast, n.cond.id))
+                out.append((conds, ret.value, ret))
+        return out
+
+    rows4 = raw_rows(gate)
+    ctx.require(rows4, "gate has no return paths")
+    # one level of inlining: `v = <helper>(flags)` where the helper maps the flags to the level they ask for
+    helper_vars = {}
+    for n in walk_no_nested(gate.node):
+        if isinstance(n, ast.Assign) and len(n.targets) == 1 and isinstance(n.targets[0], ast.Name) and isinstance(n.value, ast.Call) \
+                and n.value.args and isinstance(n.value.args[0], ast.Name) and n.value.args[0].id == fl:
+            cs = ctx.cg.site_for(gate, n.value)
+            hs = [t for t in cs.targets if t.cls is not None and gate.cls in t.cls.mro or (t.cls is gate.cls)]
+            if len(hs) == 1 and q.returns(hs[0]):
+                helper_vars[n.targets[0].id] = (hs[0], n)
+    rows = []
+    for conds, retv, ret in rows4:
+        used = [v for v in helper_vars if any(v in q.names_in(c[2]) for c in conds) or (retv is not None and v in q.names_in(retv))]
+        if not used:
+            rows.append(([(c[0], c[1], c[2]) for c in conds], retv, ret))
+            continue
+        v = used[0]
+        h, assign = helper_vars[v]
+        hp = (q.param_names(h) or [fl])[0]
+        an = cfg.node_of(assign)
+        for hconds, hret, _ in raw_rows(h):
+            hnone = hret is None or (isinstance(hret, ast.Constant) and hret.value is None)
+            feasible = True
+            before, after = [], []
+            for text, pol, expr, cid in conds:
+                if v in q.names_in(expr):
+                    if isinstance(expr, ast.Compare) and isinstance(expr.comparators[0], ast.Constant) and expr.comparators[0].value is None:
+                        val = hnone if isinstance(expr.ops[0], ast.Is) else (not hnone)
+                    elif isinstance(expr, ast.Name):
+                        val = not hnone
+                    else:
+                        feasible = False
+                        break
+                    if val != pol:
+                        feasible = False
+                        break
+                else:
+                    (before if cfg.dominates(cid, an.id) else after).append((text, pol, expr))
+            if not feasible:
+                continue
+            # rename the helper's parameter to the gate's
+            def ren(e):
+                e2 = ast.parse(norm(e), mode="eval").body
+                for x in ast.walk(e2):
+                    if isinstance(x, ast.Name) and x.id == hp:
+                        x.id = fl
+                return e2
+            hc = [(norm(ren(c[2])), c[1], ren(c[2])) for c in hconds]
+            new_ret = retv
+            if retv is not None and v in q.names_in(retv) and hret is not None:
+                src = norm(retv)
+                import re as _re
+                new_ret = ast.parse(_re.sub(r"\b%s\b" % v, "(" + norm(hret) + ")", src), mode="eval").body
+                for x in ast.walk(new_ret):
+                    for ch in ast.iter_child_nodes(x):
+                        ch._parent = x
+            rows.append((before + hc + after, new_ret, ret))
+    ctx.require(rows, "gate has no feasible return paths")
     # fall off the end = returns None (falsy): a path to exit without return
     for pth in cfg.paths(cfg.entry.id, cfg.exit.id, limit=400):
         last = cfg.nodes[pth[-2]] if len(pth) > 1 else None
